@@ -12,8 +12,13 @@ def validate_encoded(string):
     raise gfapy.FormatError(
         "{} is not a single printable character string".format(repr(string)))
 
-def validate_decoded(string):
-  return validate_encoded(string)
+def validate_decoded(obj):
+  if not isinstance(obj, str):
+    raise gfapy.TypeError(
+      "the class {} is incompatible with the datatype\n"
+      .format(obj.__class__.__name__)+
+      "(accepted classes: str)")
+  return validate_encoded(obj)
 
 def unsafe_encode(obj):
   return str(obj)
